@@ -15,6 +15,7 @@ pub enum RingSel {
     Z,
     Gauss,
     Eisen,
+    Q,
 }
 
 pub struct Snf {
@@ -24,6 +25,8 @@ pub struct Snf {
     pub b: i64,
     pub flags: [bool; 4],
     pub lll_path: bool,
+    /// only the diagonal entries are inputs (off-diagonal entries are 0): exercises diag_normalize on its own
+    pub diag: bool,
 }
 
 impl Snf {
@@ -35,7 +38,12 @@ impl Snf {
         for<'x> &'x R: EucRingOps<R>,
     {
         let (m, n) = (self.m, self.n);
-        let a: Mat<R> = build_mat::<I, R>(m, n, xs);
+        let a: Mat<R> = if self.diag {
+            let k = R::ARITY;
+            Mat::from_data((m, n), (0..m * n).map(|e| if e / n == e % n { R::build(&xs[(e / n) * k..(e / n + 1) * k]) } else { R::zero() }))
+        } else {
+            build_mat::<I, R>(m, n, xs)
+        };
         let res = snf(&a, self.flags);
         let d = res.result().clone();
         let ag = mat_to_grid(&a);
@@ -100,17 +108,20 @@ impl Harness for Snf {
     fn id(&self) -> String {
         format!("snf/{:?}/{}x{}/B{}/flags{}{}", self.ring, self.m, self.n, self.b,
             self.flags.iter().map(|&f| if f { '1' } else { '0' }).collect::<String>(),
-            if self.lll_path { "/lll" } else { "" })
+            if self.lll_path { "/lll" } else if self.diag { "/diagonal-input" } else { "" })
     }
     fn functions(&self) -> Vec<&'static str> {
         vec!["yui_matrix::dense::snf::snf", "SnfCalc::{process,eliminate_all,eliminate_step,eliminate_at,eliminate_row,eliminate_col,diag_normalize,diag_normalize_step,gcdx}",
              "yui::EucRing::{gcdx,divides} (generic)", "Mat::{left_elementary,right_elementary,swap_rows,swap_cols,mul_row,mul_col}"]
     }
     fn inputs(&self) -> Vec<InputSpec> {
-        let k = match self.ring { RingSel::Z => 1, _ => 2 };
+        let k = match self.ring { RingSel::Z | RingSel::Q => 1, _ => 2 };
         let mut v = Vec::new();
         for i in 0..self.m {
             for j in 0..self.n {
+                if self.diag && i != j {
+                    continue;
+                }
                 for c in 0..k {
                     v.push(InputSpec::boxed(&format!("a{}{}{}", i, j, if k == 1 { "".to_string() } else { ["r", "i"][c].to_string() }), self.b));
                 }
@@ -126,6 +137,7 @@ impl Harness for Snf {
             RingSel::Z => self.check::<I, I>(xs),
             RingSel::Gauss => self.check::<I, GaussInt<I>>(xs),
             RingSel::Eisen => self.check::<I, EisenInt<I>>(xs),
+            RingSel::Q => self.check::<I, yui::Ratio<I>>(xs),
         }
     }
 }
@@ -136,23 +148,32 @@ pub fn configs(tier: crate::registry::Tier, _seed: u64) -> Vec<crate::registry::
     let all = [true; 4];
     // Z: exhaustive small shapes
     for (m, n, b, cls, secs) in [(1, 1, 6, 200, 20.0), (1, 2, 6, 500, 40.0), (2, 1, 6, 500, 40.0), (2, 2, 2, 400, 90.0), (1, 3, 2, 400, 60.0), (3, 1, 2, 400, 60.0), (2, 3, 1, 300, 60.0), (3, 2, 1, 300, 60.0)] {
-        v.push(entry(Snf { ring: RingSel::Z, m, n, b, flags: all, lll_path: false }, cls, secs));
+        v.push(entry(Snf { ring: RingSel::Z, m, n, b, flags: all, lll_path: false, diag: false }, cls, secs));
     }
-    v.push(entry(Snf { ring: RingSel::Z, m: 0, n: 2, b: 2, flags: all, lll_path: false }, 10, 10.0));
-    v.push(entry(Snf { ring: RingSel::Z, m: 2, n: 0, b: 2, flags: all, lll_path: false }, 10, 10.0));
+    v.push(entry(Snf { ring: RingSel::Z, m: 0, n: 2, b: 2, flags: all, lll_path: false, diag: false }, 10, 10.0));
+    v.push(entry(Snf { ring: RingSel::Z, m: 2, n: 0, b: 2, flags: all, lll_path: false, diag: false }, 10, 10.0));
     // flag subsets on 2x2
     for f in [[false; 4], [true, false, false, false], [false, true, false, true], [true, false, true, false]] {
-        v.push(entry(Snf { ring: RingSel::Z, m: 2, n: 2, b: 1, flags: f, lll_path: false }, 200, 40.0));
+        v.push(entry(Snf { ring: RingSel::Z, m: 2, n: 2, b: 1, flags: f, lll_path: false, diag: false }, 200, 40.0));
     }
     for (ring, m, n, b, cls, secs) in [(RingSel::Gauss, 1, 1, 2, 200, 30.0), (RingSel::Gauss, 1, 2, 1, 300, 60.0), (RingSel::Eisen, 1, 1, 2, 200, 30.0), (RingSel::Eisen, 2, 1, 1, 300, 60.0)] {
-        v.push(entry(Snf { ring, m, n, b, flags: all, lll_path: false }, cls, secs));
+        v.push(entry(Snf { ring, m, n, b, flags: all, lll_path: false, diag: false }, cls, secs));
     }
+    // diagonal inputs: the divisibility-chain normalisation on its own (3 or 4 symbolic entries, wider box)
+    v.push(entry(Snf { ring: RingSel::Z, m: 3, n: 3, b: 6, flags: all, lll_path: false, diag: true }, 3000, 150.0));
+    v.push(entry(Snf { ring: RingSel::Z, m: 2, n: 3, b: 8, flags: all, lll_path: false, diag: true }, 1000, 60.0));
+    v.push(entry(Snf { ring: RingSel::Gauss, m: 2, n: 2, b: 2, flags: all, lll_path: false, diag: true }, 1000, 90.0));
+    v.push(entry(Snf { ring: RingSel::Z, m: 3, n: 3, b: 2, flags: all, lll_path: false, diag: false }, 600, 120.0));
+    v.push(entry(Snf { ring: RingSel::Gauss, m: 1, n: 3, b: 2, flags: all, lll_path: false, diag: false }, 600, 120.0));
+    v.push(entry(Snf { ring: RingSel::Q, m: 2, n: 2, b: 2, flags: all, lll_path: false, diag: false }, 600, 90.0));
     if tier == Tier::Thorough {
+        v.push(entry(Snf { ring: RingSel::Z, m: 4, n: 4, b: 6, flags: all, lll_path: false, diag: true }, 20000, 1800.0));
+        v.push(entry(Snf { ring: RingSel::Eisen, m: 3, n: 3, b: 2, flags: all, lll_path: false, diag: true }, 20000, 900.0));
         for (m, n, b, cls, secs) in [(2, 2, 4, 5000, 900.0), (2, 3, 2, 5000, 900.0), (3, 2, 2, 5000, 900.0), (3, 3, 1, 5000, 900.0), (3, 3, 2, 3000, 900.0)] {
-            v.push(entry(Snf { ring: RingSel::Z, m, n, b, flags: all, lll_path: false }, cls, secs));
+            v.push(entry(Snf { ring: RingSel::Z, m, n, b, flags: all, lll_path: false, diag: false }, cls, secs));
         }
         for (ring, m, n, b, cls, secs) in [(RingSel::Gauss, 2, 2, 1, 3000, 900.0), (RingSel::Eisen, 2, 2, 1, 3000, 900.0), (RingSel::Gauss, 1, 2, 2, 3000, 600.0)] {
-            v.push(entry(Snf { ring, m, n, b, flags: all, lll_path: false }, cls, secs));
+            v.push(entry(Snf { ring, m, n, b, flags: all, lll_path: false, diag: false }, cls, secs));
         }
     }
     v
